@@ -24,6 +24,11 @@ Primary == "USD"
 StatementSecondary == "EUR"          \* what the statement's secondary-commodity column shows
 RuleSecondary == "JPY"                \* what a rule's conversion.commodity says
 SecondaryOf(cfg) == IF cfg.ruleconv = "commodity" THEN RuleSecondary ELSE StatementSecondary
+\* skipped head lines (format.skip.head = cfg.skip) are RAW lines: whatever they contain - nothing at all, the
+\* delimiter, an unbalanced quote - the label row is the line after them and no statement row is lost
+HeadOf(k) == IF k = 0 THEN <<>>
+             ELSE IF k = 2 THEN <<"Account statement line 1", "Account statement line 2">>
+             ELSE <<"Statement; of, account", "", "\"unbalanced quote, period 2024">>
 Account == "Assets:Src"
 ChargeAccount == "Expenses:Commissions"
 Operator == "The Bank"              \* the configured `operator`: the payee of a charge posting
